@@ -99,7 +99,7 @@ Definition g_enum_here (usenum : bool) (c : score) : bool :=
 Definition g_enum (usenum : bool) : schema -> bool := all_sub (fun s => g_enum_here usenum (core_of s)).
 
 Definition here_ok (rc : string -> bool) (s : schema) : bool :=
-  g_empty_here s && g_excl_here (core_of s) && g_small_here (core_of s) &&
+  g_empty_here s && g_small_here (core_of s) &&
   match s with Sch _ _ _ _ _ _ props _ => nodup_str (map fst props) end.
 Definition g_all (rc : string -> bool) : schema -> bool := all_sub (here_ok rc).
 
